@@ -88,6 +88,13 @@ def api_verdict(o, t):
     return got, err
 
 
+import collections.abc as _cabc
+
+_ITER_ORIGINS = (_cabc.Sequence, _cabc.Iterable, _cabc.Collection, _cabc.Container, _cabc.Reversible, _cabc.MutableSequence,
+                 _cabc.Set, _cabc.MutableSet)
+_MAP_ORIGINS = (_cabc.Mapping, _cabc.MutableMapping)
+
+
 def localize(o, t, direction, depth=0):
     """Descend to the innermost (object, type) component that still disagrees."""
     if depth > 6:
@@ -101,7 +108,9 @@ def localize(o, t, direction, depth=0):
         subs = [(o, args[0])]
     elif origin in (list, set, frozenset) and isinstance(o, origin) and args:
         subs = [(e, args[0]) for e in o]
-    elif origin is dict and isinstance(o, dict) and len(args) == 2:
+    elif origin in _ITER_ORIGINS and isinstance(o, (list, tuple, set, frozenset)) and args:
+        subs = [(e, args[0]) for e in o]
+    elif (origin is dict or origin in _MAP_ORIGINS) and isinstance(o, dict) and len(args) == 2:
         subs = [(k, args[0]) for k in o] + [(v, args[1]) for v in o.values()]
     elif origin is tuple and isinstance(o, tuple) and args and Ellipsis not in args and len(args) == len(o) \
             and not any(getattr(a, "__unpacked__", False) for a in args) and args != ((),):
